@@ -19,6 +19,11 @@
              | B | C | T <0|1> [expr] | K block | X expr | P expr
      top   ::= G <fid> <n> (<id> ty <0|1>)*n <0|1> [ty] block | S stmt
      prog  ::= <n> top*n
+   Further commands:
+       L <id> <expr>          lowering model (Lower/Ops.v through Lower/Tie.v) on a closed single-operator
+                              expression -> R <id> K:<ok|poison|reject|crash|none> <hex of what the code prints>
+       Q <id> <pexpr>         pexpr ::= A <n> | O <op> pexpr pexpr ; the Coq renderer of Lang/Prec.v ->
+                              R <id> T:<roundtrip|DIFFERENT|NOPARSE> <tokens: a<n> ( ) o:<op> ist um vL vR>
    libm pow/log10 and the C format "%.16g" are supplied here (same libc as the runtime). *)
 open C01_model
 open Common
@@ -164,6 +169,26 @@ let guard_name = function
   | G_bad_codepoint -> "bad_codepoint" | G_dangling_ref -> "dangling_ref" | G_ill_typed -> "ill_typed"
   | G_out_of_fragment -> "out_of_fragment"
 
+let pop_of = function
+  | "Or" -> POr | "And" -> PAnd | "LogicOr" -> PLOr | "LogicXor" -> PLXor | "LogicAnd" -> PLAnd | "Eq" -> PEq | "Ne" -> PNe
+  | "Lt" -> PLt | "Gt" -> PGt | "Le" -> PLe | "Ge" -> PGe | "Shl" -> PShl | "Shr" -> PShr | "Plus" -> PPlus
+  | "Minus" -> PMinus | "Concat" -> PConcat | "Mult" -> PMult | "Div" -> PDiv | "Mod" -> PMod | "Pow" -> PPow
+  | s -> failwith ("pop " ^ s)
+let pop_name = function
+  | POr -> "Or" | PAnd -> "And" | PLOr -> "LogicOr" | PLXor -> "LogicXor" | PLAnd -> "LogicAnd" | PEq -> "Eq" | PNe -> "Ne"
+  | PLt -> "Lt" | PGt -> "Gt" | PLe -> "Le" | PGe -> "Ge" | PShl -> "Shl" | PShr -> "Shr" | PPlus -> "Plus"
+  | PMinus -> "Minus" | PConcat -> "Concat" | PMult -> "Mult" | PDiv -> "Div" | PMod -> "Mod" | PPow -> "Pow"
+let rec p_pexpr () : pexpr =
+  match next () with
+  | "A" -> PAtom (p_id ())
+  | "O" -> let o = pop_of (next ()) in let a = p_pexpr () in let b = p_pexpr () in PBin (o, a, b)
+  | s -> failwith ("pexpr " ^ s)
+let rec int_of_posn = function XH -> 1 | XO p -> 2 * int_of_posn p | XI p -> 2 * int_of_posn p + 1
+let tok_text = function
+  | KAtom n -> "a" ^ string_of_int (match n with N0 -> 0 | Npos p -> int_of_posn p)
+  | KLP -> "(" | KRP -> ")" | KOp o -> "o:" ^ pop_name o | KIst -> "ist" | KUm -> "um"
+  | KVerschoben true -> "vL" | KVerschoben false -> "vR"
+
 let () =
   let lines = read_lines stdin in
   List.iter (fun line ->
@@ -179,5 +204,24 @@ let () =
           | Undefined (g, o) -> "U:" ^ guard_name g, o
           | OutOfFuel o -> "F", o in
         Printf.printf "R %s %s %s\n" id kind (hex_of outp)
+      with e -> Printf.printf "R %s X:%s -\n" id (String.map (fun c -> if c = ' ' then '_' else c) (Printexc.to_string e)))
+    | "L" :: id :: rest ->
+      (try
+        toks := Array.of_list rest; pos := 0;
+        let e = p_expr () in
+        (match lower_top pow_oracle log10_oracle fmt_oracle e with
+         | TieOk bs -> Printf.printf "R %s K:ok %s\n" id (hex_of bs)
+         | TiePoison -> Printf.printf "R %s K:poison -\n" id
+         | TieReject -> Printf.printf "R %s K:reject -\n" id
+         | TieCrash -> Printf.printf "R %s K:crash -\n" id
+         | TieNone -> Printf.printf "R %s K:none -\n" id)
+      with e -> Printf.printf "R %s X:%s -\n" id (String.map (fun c -> if c = ' ' then '_' else c) (Printexc.to_string e)))
+    | "Q" :: id :: rest ->
+      (try
+        toks := Array.of_list rest; pos := 0;
+        let e = p_pexpr () in
+        let ts = render e in
+        let back = match parse ts with Some e' -> if e' = e then "roundtrip" else "DIFFERENT" | None -> "NOPARSE" in
+        Printf.printf "R %s T:%s %s\n" id back (String.concat " " (List.map tok_text ts))
       with e -> Printf.printf "R %s X:%s -\n" id (String.map (fun c -> if c = ' ' then '_' else c) (Printexc.to_string e)))
     | _ -> ()) lines
